@@ -29,7 +29,7 @@ EXPLANATION = (
 )
 NOT_DECIDED = ["accessors never raise (in general)", "document properties reported unchanged (value identity through XML/OLE readers)", "behaviour on damaged-but-accepted files beyond the nullness facts", "which of several stored values feeds a metadata field when a file carries more than one candidate (e.g. <meta name=description> and og:description): value-level choice"]
 TRUSTED = ["ElementTree .text / one-argument .get / .find may return None", "str methods return str", "nullness and interval engines"]
-FLOORS = {"C04-IFACE": 40, "C04-STR": 100, "C04-CHR": 5, "C04-BYTES": 20, "C04-DIM": 6, "C04-NUMPOS": 12, "C04-META": 21}
+FLOORS = {"C04-IFACE": 40, "C04-STR": 100, "C04-CHR": 5, "C04-BYTES": 20, "C04-DIM": 6, "C04-NUMPOS": 12, "C04-META": 21, "C04-TRUTH": 100}
 
 PROTO_METHODS = {
     "ExtractionInterface": ["iterate_units", "iterate_images", "iterate_tables", "get_full_text", "get_metadata", "to_json"],
@@ -507,4 +507,57 @@ def rule_meta(ctx: Ctx) -> RuleReport:
     return rep
 
 
-RULES = [rule_iface, rule_str, rule_chr, rule_bytes, rule_dim, rule_numpos, rule_meta]
+def _is_elem_find(ctx, mod, c) -> bool:
+    """`X.find(<tag path>[, namespaces])` of ElementTree (str.find takes a plain substring and returns an int)."""
+    if not (isinstance(c, ast.Call) and isinstance(c.func, ast.Attribute) and c.func.attr == "find" and c.args):
+        return False
+    v = ctx.folder.fold(mod, c.args[0])
+    if isinstance(v, str) and (":" in v or "{" in v or "/" in v):
+        return True
+    return len(c.args) >= 2 or any(k.arg == "namespaces" for k in c.keywords)
+
+
+def rule_truth(ctx: Ctx) -> RuleReport:
+    """An Element is false when it has no children: `find(a) or find(b)` and `if elem:` silently discard leaf elements (dc:creator, dc:title, ...)."""
+    rep = RuleReport("C04-TRUTH", "the result of Element.find is compared with None, never truth-tested (a childless element is falsy, so a stored property would be replaced or dropped)")
+    for m in ctx.p.modules.values():
+        if "/tests/" in m.rel:
+            continue
+        for fi in m.functions.values():
+            ev = {}
+            direct = []
+            for a in walk_own(fi.node):
+                if isinstance(a, ast.Assign) and len(a.targets) == 1 and isinstance(a.targets[0], ast.Name):
+                    ev.setdefault(a.targets[0].id, []).append(_is_elem_find(ctx, m, a.value))
+                if isinstance(a, ast.Call) and _is_elem_find(ctx, m, a):
+                    direct.append(a)
+            elemvars = {k for k, v in ev.items() if v and all(v)}
+            if not elemvars and not direct:
+                continue
+            rep.unit(fi.key)
+            tests = []
+            for x in walk_own(fi.node):
+                if isinstance(x, (ast.If, ast.While, ast.IfExp)):
+                    tests.append(x.test)
+                elif isinstance(x, ast.BoolOp):
+                    tests.extend(x.values)
+                elif isinstance(x, ast.UnaryOp) and isinstance(x.op, ast.Not):
+                    tests.append(x.operand)
+                elif isinstance(x, ast.comprehension):
+                    tests.extend(x.ifs)
+                elif isinstance(x, ast.Assert):
+                    tests.append(x.test)
+            bad = [t for t in tests if (isinstance(t, ast.Name) and t.id in elemvars) or _is_elem_find(ctx, m, t)]
+            seen = set()
+            for t in bad:
+                k = anorm(t, fi.node)
+                if k in seen:
+                    continue
+                seen.add(k)
+                rep.fail(Finding("C04-TRUTH", m.rel, fi.qual, "truth value of " + k, f"`{short(t, 60)}` is used as a truth value: an Element without children is false, so an element that is present (a leaf such as dc:creator with its text) counts as missing and its value is replaced or dropped", line=t.lineno))
+            for _ in range(max(0, len(direct) - len(bad))):
+                rep.ok()
+    return rep
+
+
+RULES = [rule_iface, rule_str, rule_chr, rule_bytes, rule_dim, rule_numpos, rule_meta, rule_truth]
